@@ -52,6 +52,26 @@ theorem limit_batching_independent (bs cs : List (List α)) (s : LimitSt) (h : b
     limitRun s bs = limitRun s cs := by
   rw [limitRun_spec, limitRun_spec, h]
 
+/-- The number of rows a LIMIT emits depends only on how many rows arrive, not on which partition's
+batch is served first: the operator state is shared by all partitions, so a multi-partition run is
+`limitRun` on the batches in arrival order, whatever that order is. -/
+theorem limit_length (bs : List (List α)) (s : LimitSt) :
+    (limitRun s bs).length = min s.remCount (bs.flatten.length - s.remOffset) := by
+  rw [limitRun_spec]
+  simp [List.length_take, List.length_drop]
+
+theorem limit_count_schedule_independent (bs cs : List (List α)) (s : LimitSt)
+    (h : bs.flatten.length = cs.flatten.length) :
+    (limitRun s bs).length = (limitRun s cs).length := by
+  rw [limit_length, limit_length, h]
+
+/-- Every row a LIMIT emits is a row it received (it never invents or duplicates rows: the output
+is a contiguous slice of the arrival order). -/
+theorem limit_sublist (bs : List (List α)) (s : LimitSt) :
+    (limitRun s bs).Sublist bs.flatten := by
+  rw [limitRun_spec]
+  exact (List.take_sublist _ _).trans (List.drop_sublist _ _)
+
 example : limitRun ⟨2, 3⟩ [[1, 2, 3], [], [4, 5], [6, 7, 8]] = [3, 4, 5] := by decide
 
 end GlareModel.Props.C03
